@@ -67,7 +67,7 @@ impl<'a> Parser<'a> {
                 let mut edges = Vec::new();
                 for _ in 0..m { edges.push((self.next() as usize, self.next() as usize, self.next() as u64)); }
                 let root = self.next();
-                let mut g: BaseCausalGraph<'static> = CausaloidGraph::new_with_capacity(4);
+                let mut g: BaseCausalGraph<'static> = mk_cgraph(id);
                 let mut kids = Vec::new();
                 for (i, (c, k, kd)) in nodes.into_iter().enumerate() {
                     let ix = if is_root(root, i) { g.add_root_causaloid(c) } else { g.add_causaloid(c) };
@@ -90,6 +90,11 @@ impl<'a> Parser<'a> {
 // the final root r (re-rooting: the last add_root_causaloid decides where reasoning starts)
 fn is_root(root: i128, i: usize) -> bool {
     root >= 0 && (i as i128 == root % 1000 || (root >= 1000 && i as i128 == root / 1000 - 1))
+}
+
+// the three constructors of a causaloid graph, chosen by the id of the wrapping causaloid
+fn mk_cgraph(id: u64) -> BaseCausalGraph<'static> {
+    match id % 3 { 0 => CausaloidGraph::new_with_capacity(4), 1 => CausaloidGraph::new(), _ => CausaloidGraph::default() }
 }
 
 fn mk_shape(c: &'static C, kids: Vec<(usize, Shape)>, kind: i128) -> Shape {
@@ -199,7 +204,7 @@ pub fn run_rm(args: &[i128], cont: usize, rm: bool) -> Vec<i128> {
             let mut edges = Vec::new();
             for _ in 0..m { edges.push((p.next() as usize, p.next() as usize, p.next() as u64)); }
             let root = p.next();
-            let mut g: BaseCausalGraph<'static> = CausaloidGraph::new_with_capacity(4);
+            let mut g: BaseCausalGraph<'static> = mk_cgraph(id);
             // [rm] the removal list and a prefill count follow the root index: `nrem idx* prefill`
             let mut removed: Vec<usize> = Vec::new();
             if rm {
